@@ -30,7 +30,7 @@ It(tag, q) == [tag |-> tag, q |-> q, sp |-> FALSE]
 AsHdr2(e) == IF Len(e.items) > 0 THEN [t |-> "lang", name |-> e.name, ln |-> Lower(e.name), items |-> e.items] ELSE AsHdr(e)
 Meaning2(list, isreq) ==
   LET base == H2Meaning(list, isreq, {})
-      hs == [i \in 1..Len(SelectSeq(list, LAMBDA e : ~IsPseudo(e.name))) |-> AsHdr2(SelectSeq(list, LAMBDA e : ~IsPseudo(e.name))[i])]
+      hs == [i \in 1..Len(SelectSeq(list, LAMBDA e : ~LinePseudo(e.name))) |-> AsHdr2(SelectSeq(list, LAMBDA e : ~LinePseudo(e.name))[i])]
   IN [base EXCEPT !.ua = base.ua] @@ [lang |-> IF isreq THEN LangOf(hs, {}) ELSE <<>>]
 
 ReqPseudo == <<E(":method", "GET"), E(":scheme", "https"), E(":path", "/index.html"), E(":authority", "example.com")>>
@@ -137,8 +137,14 @@ SpecialCases ==
       r \in {1, 2, 4, 6}, n \in {"referer", "cookie", "user-agent", "accept-encoding"}, v \in {"", "a=1", "token=YWJjZA==; prefs=lang=en&tz=utc; flag"},
       tail \in {<<Fld(E("x-last", "1"), 4)>>, <<Fld(E("referer", ""), 1), Fld(E("x-last", "1"), 6)>>, <<Fld(E("cookie", ""), 4), Fld(E("referer", "https://r.example/"), 2)>>}}
 
+\* ---- extended CONNECT (RFC 8441): a further colon-named field among the pseudo-headers, in every representation
+ConnectCases ==
+  {Vec(TRUE, Std, Block(<<Fld(E(":method", "CONNECT"), 3), Fld(E(":protocol", "websocket"), r), Fld(E(":scheme", "https"), 1), Fld(E(":path", "/chat"), 2), Fld(E(":authority", "ws.example"), 2)>>
+                         \o <<Fld(E("user-agent", "ws/1.0"), 2), Fld(E("sec-websocket-version", "13"), r2)>> \o tail), Plain, <<>>, "connect") :
+      r \in {2, 3, 4, 6, 8}, r2 \in {2, 5}, tail \in {<<>>, <<Fld(E(":protocol", "websocket"), 2)>>}}
+
 \* TLC evaluates every constant definition at start-up, so all families are emitted by one run
-Cases == RepCases \cup FramingCases \cup PrefixCases \cup DynCases \cup DynSettingsCases \cup RespCases \cup ValueCases \cup SpecialCases \cup RespDynCases
+Cases == RepCases \cup FramingCases \cup PrefixCases \cup DynCases \cup DynSettingsCases \cup RespCases \cup ValueCases \cup SpecialCases \cup RespDynCases \cup ConnectCases
 CaseSeq == SetToSeq(Cases)
 Emit(i) == PrintT("REPLAY " \o ToJson([i |-> i] @@ CaseSeq[i]))
 EmitMax(j) == PrintT("REPLAY " \o ToJson([i |-> 100000 + j] @@ MaxFrameAt(j)))
